@@ -15,6 +15,7 @@ open Zk
 section
 variable {F : Type} [Field F] [ScCodec F] [LawfulScCodec F]
 
+omit [LawfulScCodec F] in
 /-- `t₀` splits into the bit part and the `z²`-part -/
 theorem t0_split (z : F) (aL ys z2 : List F) (hb : ∀ a ∈ aL, a * (a - 1) = 0)
     (h1 : aL.length = ys.length) (h2 : aL.length = z2.length) :
@@ -35,6 +36,7 @@ theorem t0_split (z : F) (aL ys z2 : List F) (hb : ∀ a ∈ aL, a * (a - 1) = 0
       have := hb a (by simp)
       linear_combination y * this
 
+omit [LawfulScCodec F] in
 theorem ip_map_mul_right (k : F) (a b : List F) : ipScalars a (b.map (· * k)) = k * ipScalars a b := by
   induction a generalizing b with
   | nil => simp [ipScalars]
@@ -43,6 +45,7 @@ theorem ip_map_mul_right (k : F) (a b : List F) : ipScalars a (b.map (· * k)) =
     | nil => simp [ipScalars]
     | cons y b => simp only [List.map_cons, ip_cons_cons, ih]; ring
 
+omit [LawfulScCodec F] in
 theorem ip_map_mul_left (k : F) (a b : List F) : ipScalars (a.map (k * ·)) b = k * ipScalars a b := by
   induction a generalizing b with
   | nil => simp [ipScalars]
@@ -51,6 +54,7 @@ theorem ip_map_mul_left (k : F) (a b : List F) : ipScalars (a.map (k * ·)) b = 
     | nil => simp [ipScalars]
     | cons y b => simp only [List.map_cons, ip_cons_cons, ih]; ring
 
+omit [LawfulScCodec F] in
 theorem sum_map_mul_right (k : F) (b : List F) : (b.map (· * k)).sum = k * b.sum := by
   induction b with
   | nil => simp
@@ -70,6 +74,7 @@ theorem bits_value (v n : ℕ) :
     simp only [List.map_cons, List.map_nil, ip_cons_cons, ip_nil_left, Nat.shiftRight_eq_div_pow]
     push_cast; ring
 
+omit [LawfulScCodec F] in
 theorem concatZAnd2_cons (z : F) (n : ℕ) (ns : List ℕ) :
     concatZAnd2 z (n :: ns) = powers (ScCodec.ofNat 2 : F) n ++ (concatZAnd2 z ns).map (· * z) := by
   unfold concatZAnd2
@@ -109,6 +114,7 @@ theorem bitsOf_bits (vs ns : List ℕ) : ∀ a ∈ (bitsOf vs ns : List F), a * 
   rw [LawfulScCodec.ofNat_cast]
   rcases Nat.mod_two_eq_zero_or_one (p.1 >>> j) with h | h <;> simp [h]
 
+omit [LawfulScCodec F] in
 theorem concatZAnd2_length (z : F) (ns : List ℕ) : (concatZAnd2 z ns).length = ns.sum := by
   induction ns with
   | nil => simp [concatZAnd2]
